@@ -322,11 +322,79 @@ func traceParam(f *ssa.Function, v ssa.Value) (int, bool) {
 			v = x.X
 		case *ssa.MakeInterface:
 			v = x.X
+		case *ssa.UnOp:
+			// a parameter captured by a closure lives in a cell: *cell is the parameter
+			if x.Op == token.MUL {
+				if al, ok := x.X.(*ssa.Alloc); ok {
+					return cellParam(f, al)
+				}
+			}
+			return 0, false
 		default:
 			return 0, false
 		}
 	}
 	return 0, false
+}
+
+// cellParam: the local cell holds parameter i and nothing else is ever stored into it.
+func cellParam(f *ssa.Function, al *ssa.Alloc) (int, bool) {
+	idx, n := -1, 0
+	for _, rf := range refs(al) {
+		st, ok := rf.(*ssa.Store)
+		if !ok || st.Addr != ssa.Value(al) {
+			continue
+		}
+		n++
+		if prm, ok := st.Val.(*ssa.Parameter); ok {
+			for i, q := range f.Params {
+				if q == prm {
+					idx = i
+				}
+			}
+		}
+	}
+	if n == 1 && idx >= 0 {
+		return idx, true
+	}
+	return 0, false
+}
+
+// traceFreeVarField: in a closure, v = *(&(*fv).F), &(*fv).F, *fv or fv → (free variable index, F)
+func traceFreeVarField(g *ssa.Function, v ssa.Value) (int, string, bool) {
+	if mi, ok := v.(*ssa.MakeInterface); ok {
+		v = mi.X
+	}
+	fvIdx := func(v ssa.Value) (int, bool) {
+		if u, ok := v.(*ssa.UnOp); ok && u.Op == token.MUL {
+			v = u.X
+		}
+		if fv, ok := v.(*ssa.FreeVar); ok {
+			for j, q := range g.FreeVars {
+				if q == fv {
+					return j, true
+				}
+			}
+		}
+		return 0, false
+	}
+	w := v
+	if u, ok := w.(*ssa.UnOp); ok && u.Op == token.MUL {
+		if fa, ok := u.X.(*ssa.FieldAddr); ok {
+			if j, ok := fvIdx(fa.X); ok {
+				return j, fieldName(fa.X.Type(), fa.Field), true
+			}
+		}
+	}
+	if fa, ok := w.(*ssa.FieldAddr); ok {
+		if j, ok := fvIdx(fa.X); ok {
+			return j, fieldName(fa.X.Type(), fa.Field), true
+		}
+	}
+	if j, ok := fvIdx(w); ok {
+		return j, "", true
+	}
+	return 0, "", false
 }
 
 // traceParamField: v = *(&param.F) or &param.F → (i, F)
@@ -349,12 +417,13 @@ func traceParamField(f *ssa.Function, v ssa.Value) (relKey, bool) {
 }
 
 type poolSummaries struct {
-	rel  map[*ssa.Function]map[relKey]bool // function releases param(.field)
-	uses map[*ssa.Function]map[relKey]bool // function touches param.field
+	relFV map[*ssa.Function]map[relKey]bool // closure releases free variable(.field); relKey.param is the free-variable index
+	rel   map[*ssa.Function]map[relKey]bool // function releases param(.field)
+	uses  map[*ssa.Function]map[relKey]bool // function touches param.field
 }
 
 func buildPoolSummaries(p *Prog) *poolSummaries {
-	ps := &poolSummaries{rel: map[*ssa.Function]map[relKey]bool{}, uses: map[*ssa.Function]map[relKey]bool{}}
+	ps := &poolSummaries{rel: map[*ssa.Function]map[relKey]bool{}, uses: map[*ssa.Function]map[relKey]bool{}, relFV: map[*ssa.Function]map[relKey]bool{}}
 	fns := p.AllLibFns()
 	add := func(m map[*ssa.Function]map[relKey]bool, f *ssa.Function, k relKey) bool {
 		if m[f] == nil {
@@ -387,10 +456,31 @@ func buildPoolSummaries(p *Prog) *poolSummaries {
 						if add(ps.rel, f, k) {
 							changed = true
 						}
+					} else if j, fld, ok := traceFreeVarField(f, c.Args[1]); ok {
+						if add(ps.relFV, f, relKey{j, fld}) {
+							changed = true
+						}
 					}
 					return
 				}
 				args := callArgs(c)
+				// a closure called or deferred here: what it releases of its free variables is released of the cells bound to them
+				if mc, ok := c.Value.(*ssa.MakeClosure); ok {
+					if g, ok := mc.Fn.(*ssa.Function); ok {
+						for k := range ps.relFV[g] {
+							if k.param >= len(mc.Bindings) {
+								continue
+							}
+							if al, ok := mc.Bindings[k.param].(*ssa.Alloc); ok {
+								if i, ok := cellParam(f, al); ok {
+									if add(ps.rel, f, relKey{i, k.field}) {
+										changed = true
+									}
+								}
+							}
+						}
+					}
+				}
 				for _, g := range p.Callees(site) {
 					if !isLibFn(g) {
 						continue
@@ -398,6 +488,14 @@ func buildPoolSummaries(p *Prog) *poolSummaries {
 					for k := range ps.rel[g] {
 						if k.param >= len(args) {
 							continue
+						}
+						if j, fld, ok := traceFreeVarField(f, args[k.param]); ok && (fld == "" || k.field == "") {
+							if fld == "" {
+								fld = k.field
+							}
+							if add(ps.relFV, f, relKey{j, fld}) {
+								changed = true
+							}
 						}
 						if i, ok := traceParam(f, args[k.param]); ok {
 							if add(ps.rel, f, relKey{i, k.field}) {
@@ -456,6 +554,30 @@ func rulePoolUAR(p *Prog, r *Report, prop string) {
 	ps := buildPoolSummaries(p)
 	n := 0
 	for _, f := range p.AllLibFns() {
+		type relSite struct {
+			in       ssa.Instruction
+			base     ssa.Value
+			field    string
+			what     string
+			deferred bool
+		}
+		var sites []relSite
+		defer func(f *ssa.Function) {
+			// released twice: a deferred release runs at every exit, so any other release of the same object in the
+			// function (directly or inside a callee) hands the object to the pool a second time
+			for _, d := range sites {
+				if !d.deferred {
+					continue
+				}
+				for _, nd := range sites {
+					if nd.deferred || nd.field != d.field || !sameObject(f, d.base, nd.base) {
+						continue
+					}
+					key := fmt.Sprintf("%s | %s and deferred %s", fnName(f), nd.what, d.what)
+					r.Bad("POOL-UAR", key, p.posStr(instrPos(nd.in)), "the object is released here and again by the deferred release at "+p.posStr(instrPos(d.in))+": the pool then hands one object to two callers")
+				}
+			}
+		}(f)
 		eachInstr(f, func(_ *ssa.BasicBlock, _ int, in ssa.Instruction) {
 			site, ok := in.(ssa.CallInstruction)
 			if !ok {
@@ -496,6 +618,7 @@ func rulePoolUAR(p *Prog, r *Report, prop string) {
 					key += " (." + rl.field + ")"
 				}
 				at := p.posStr(instrPos(in))
+				sites = append(sites, relSite{in, rl.base, rl.field, rl.what, deferred})
 				if deferred {
 					r.OK("POOL-UAR", key, at, "release is deferred: runs after the last use")
 					continue
@@ -509,6 +632,36 @@ func rulePoolUAR(p *Prog, r *Report, prop string) {
 		})
 	}
 	_ = n
+}
+
+// sameObject: a and b denote the same object in f (the same value, loads of the same cell, or the same value
+// seen through interface conversions).
+func sameObject(f *ssa.Function, a, b ssa.Value) bool {
+	strip := func(v ssa.Value) ssa.Value {
+		for i := 0; i < 6; i++ {
+			switch x := v.(type) {
+			case *ssa.MakeInterface:
+				v = x.X
+			case *ssa.ChangeType:
+				v = x.X
+			case *ssa.TypeAssert:
+				v = x.X
+			default:
+				return v
+			}
+		}
+		return v
+	}
+	a, b = strip(a), strip(b)
+	if a == b {
+		return true
+	}
+	ua, ok1 := a.(*ssa.UnOp)
+	ub, ok2 := b.(*ssa.UnOp)
+	if ok1 && ok2 && ua.Op == token.MUL && ub.Op == token.MUL && sameAddr(ua.X, ub.X) {
+		return true
+	}
+	return false
 }
 
 func useAfter(p *Prog, ps *poolSummaries, f *ssa.Function, rel ssa.Instruction, base ssa.Value, field string) string {
